@@ -88,12 +88,12 @@ CHECKS = {
         ref='DESIGN.md 3/C04'),
     'C14': dict(
         technique='schedule-owning concurrency testing: deterministic thread scheduler over line/opcode yield points, exhaustive single pre-emption + Hypothesis-drawn burst/PCT schedules, linearizability-style oracle (each outcome equals its solo outcome)',
-        text='Real threads, one running at a time, yield points at every traced line (thorough: opcode in css_parser.py) inside soupsieve. Every single pre-emption of every ordered pair of compile operations from the pool is enumerated; mixed compile/purge/select/match/filter/closest workloads on 2-4 threads run under drawn burst and priority schedules. Outcomes must equal solo outcomes; no poisoned cache entry may remain.',
+        text='Real threads, one running at a time, yield points at every traced line (thorough: opcode in css_parser.py) inside soupsieve. Every single pre-emption of every ordered pair of compile operations from the pool is enumerated; mixed compile/purge/select/match/filter/closest workloads on 2-4 threads run under drawn burst and priority schedules. Operations at the interpreter limits (4400-digit An+B coefficient, 4400-digit years) are in the pools with all their single pre-emptions. Outcomes must equal solo outcomes; no poisoned cache entry may remain; the interpreter-wide int-digit and recursion limits must be unchanged after every run.',
         note='Trusted: C-level atomicity of lru_cache/re; only interleavings at traced boundaries are explored; >= 2 pre-emptions are sampled.',
         ref='DESIGN.md 3/C14'),
     'C15': dict(
         technique='property-based testing of value semantics (mutation attacks, equality/hash relation, pickle/copy round trips) plus a stateful rule-based machine over compile/purge histories against fresh-parse references',
-        text='Every object reachable from a compiled selector is attacked through its public interface and must stay equal to a fresh parse; == must coincide with equality of (pattern, namespaces, custom, flags) on generated near-collision pairs; pickle/copy/deepcopy must round-trip; a state machine interleaves compile(key), compile_many(up to 700 patterns), purge and compile(compiled[, extra]) and checks transparency and the cache bound.',
+        text='Every object reachable from a compiled selector is attacked through its public interface and must stay equal to a fresh parse; == must coincide with equality of (pattern, namespaces, custom, flags) on generated near-collision pairs, including keys that differ in argument type only (bool/int flags, str subclasses), and equal objects must hash equal; pickle/copy/deepcopy must round-trip, also for pickles written by another interpreter process with its own string-hash seed; a state machine interleaves compile(key), compile_many(up to 700 patterns), purge and compile(compiled[, extra]) and checks transparency and the cache bound.',
         note='Trusted: cache size is observed through functools.lru_cache.cache_info() of the cached compile function; private attributes are not attacked.',
         ref='DESIGN.md 3/C15'),
     'C16': dict(
@@ -103,7 +103,7 @@ CHECKS = {
         ref='DESIGN.md 3/C16'),
     'C20': dict(
         technique='bounded-exhaustive sweep of (pattern, offset) pairs + property-based testing of parser-raised errors, DEBUG differential and pretty-printer round trip under a traced step budget',
-        text='Every pattern over 7 symbols (incl. three line-break styles) up to length 5/7 x every offset is checked against line/column/context by definition; mutated multi-line selectors must raise errors whose location matches the reported position; DEBUG must not change structure or selection; pretty() must finish within a step budget counted by sys.settrace and equal repr up to whitespace.',
+        text='Every pattern over 7 symbols (incl. three line-break styles) up to length 5/7 x every offset is checked against line/column/context by definition; mutated multi-line selectors must raise errors whose location matches the reported position; DEBUG must not change structure or selection of valid selectors nor the exception type, message and location of invalid ones (one or two mistakes per pattern); pretty() must finish within a step budget counted by sys.settrace and equal repr up to whitespace.',
         note='Trusted: the line/column oracle (self-evident), stdout capture; termination is judged by a step count, never by a clock.',
         ref='DESIGN.md 3/C20'),
 }
